@@ -115,9 +115,24 @@ def true_edges_of_sniff(body, ex, k):
         if t['k'] != 'switch':
             continue
         d = t['discr']
-        if d['k'] not in ('copy', 'move') or d['place'].get('proj'):
+        if d['k'] not in ('copy', 'move'):
             continue
+        proj = d['place'].get('proj') or []
         l = d['place']['local']
+        if proj:
+            # `match (is_jsonb(a), is_jsonb(b))`: the switch reads a field of a tuple built from the sniff results
+            if len(proj) == 1 and proj[0].get('k') == 'field' and isinstance(proj[0].get('i'), int):
+                ds_ = [x for x in defs(body).get(l, []) if x[0] == 'stmt' and x[3] is not None and x[3].get('k') == 'agg' and x[3].get('agg') == 'tuple']
+                if len(ds_) == 1 and proj[0]['i'] < len(ds_[0][3]['ops']):
+                    op_ = ds_[0][3]['ops'][proj[0]['i']]
+                    if op_['k'] in ('copy', 'move') and not op_['place'].get('proj'):
+                        l = op_['place']['local']
+                    else:
+                        continue
+                else:
+                    continue
+            else:
+                continue
         neg = False
         # follow `_x = Not(_y)` / plain copies
         for _ in range(3):
@@ -250,6 +265,13 @@ def provenance(body, t, exf, depth=0):
                             out |= provenance(body, exf.operand(tt['args'][0]), exf, depth + 1)
                     if called(nm, 'Value::to_vec') and tt['dest']['local'] == L:
                         out |= provenance(body, exf.operand(tt['args'][0]), exf, depth + 1)
+                # or returned by a crate helper that converts one document (`to_jsonb(value)?`)
+                for d in defs(body).get(L, []):
+                    if d[0] == 'stmt' and d[3] is not None:
+                        out |= provenance(body, exf.rvalue(d[3]), exf, depth + 1)
+                    elif d[0] == 'call' and d[2]['callee'].get('resolved_local'):
+                        for a in d[2]['args']:
+                            out |= provenance(body, exf.operand(a), exf, depth + 1)
             else:
                 for d in defs(body).get(L, []):
                     if d[0] == 'stmt' and d[3] is not None:
@@ -338,3 +360,59 @@ def sniff_table(ctx, run, rule='R10.10', floor=1):
             run.undecided(rule, p, 'sniff', f'answers "JSONB" only for {sorted(hex(x) for x in vals)}{" and for the empty string" if empty else ""}: a narrower sniff than the three prefixes; what the '
                           'callers do with the other documents is not decided here', loc)
     run.floor(rule, 'first-byte sniff functions evaluated', n, floor)
+
+
+# ------------------------------------------------------------------ R11.7 the text parser is applied only where the sniff said "not JSONB"
+
+def false_edges_of_sniff(body, ex, k):
+    """Edges taken when is_jsonb(param k) returned false (bool switches and tuple matches on sniff results; inline first-byte switches)."""
+    t_edges, n = true_edges_of_sniff(body, ex, k)
+    t_set = set(t_edges)
+    out = []
+    # every switch that contributed a true edge: its other targets are the false edges
+    for b in body.blocks:
+        t = b['term']
+        if t['k'] != 'switch':
+            continue
+        tg = [x for _, x in t['targets']] + [t['otherwise']]
+        mine = [x for x in tg if (b['id'], x) in t_set]
+        if mine:
+            out.extend((b['id'], x) for x in tg if x not in mine and x is not None)
+    return out, n
+
+
+def r11_7(ctx, run, rule='R11.7', only=None):
+    """In a function that sniffs a document argument with is_jsonb, the text parser is applied to that argument only on paths on which the
+    sniff answered "not JSONB": `parse_value(x)` in the arm where `is_jsonb(x)` is known to hold parses binary bytes as text, fails, and
+    the function answers as if the argument were invalid text."""
+    f = ctx.facts
+    ds = dispatchers(ctx)
+    n = 0
+    for p, params in sorted(ds.items()):
+        if only is not None and p not in only:
+            continue
+        b = f.bodies[p]
+        ex = Expr(b)
+        for k in params:
+            f_edges, nsniff = false_edges_of_sniff(b, ex, k)
+            if not nsniff or not f_edges:
+                continue
+            # blocks reachable from the entry without ever taking a "not JSONB" edge
+            not_text = reachable_without(b, f_edges)
+            bad = []
+            for bb, t in b.calls():
+                if not called(callee_name(t), 'parser::parse_value', 'parser::parse_lazy_value'):
+                    continue
+                if not any(uses_param(ex.operand(a), k) for a in t['args']):
+                    continue
+                n += 1
+                if bb in not_text:
+                    bad.append(t)
+            name = (f.fns[p]['params'][k - 1] if k - 1 < len(f.fns[p]['params']) else f'#{k}') or f'#{k}'
+            if bad:
+                t = bad[0]
+                run.violation(rule, p, f'text-parse[{name}]', f'`{name}` is handed to the text parser on a path on which is_jsonb({name}) did not answer false ({len(bad)} call site(s)): where the sniff said '
+                              'JSONB the bytes are binary, the parse fails and the argument is treated as invalid text', f"{t.get('file')}:{t.get('line')}")
+            elif n:
+                run.proved(rule, p, f'text-parse[{name}]', f'parse_value({name}) only behind is_jsonb({name}) == false', f'{b.file}:{b.line}')
+    run.count('text_parse_sites', n)
